@@ -60,7 +60,10 @@ def model_strategy(draw, tier, linked=True):
             "fuel": draw(st.sampled_from([2, 3, 3, 4])),
             "end": draw(st.sampled_from([None, None, "w3", "w5+1", "w8-1", "w30"])),
             "workers": draw(st.sampled_from([1, 0])), "linked": linked,
-            "srcbits": draw(st.sampled_from([0, 0, 0, 1, 2, 3, 5, 6, 63]))}     # which entities are registered as partition *sources*
+            "srcbits": draw(st.sampled_from([0, 0, 0, 1, 2, 3, 5, 6, 63])),
+            # which ordered pairs of partitions are linked: every pair, a one-way chain p0->p1->p2.., everything into p0 only
+            # (p0 is a pure sink with its own local work), or a generated subset of ordered pairs
+            "topo": draw(st.sampled_from(["all", "all", "chain", "sink0", "subset"])), "topobits": draw(st.integers(0, 4095))}     # which entities are registered as partition *sources*
 
 
 def lat_ns(case):
@@ -105,6 +108,21 @@ class _TT(logging.Handler):
                 raise _Abort()
 
 
+def allowed_links(case, names):
+    """Set of ordered (src_partition, dst_partition) pairs that are linked in this case."""
+    names = sorted(names)
+    topo = case.get("topo", "all")
+    pairs = [(a, b) for a in names for b in names if a != b]
+    if topo == "chain":
+        return {(names[i], names[i + 1]) for i in range(len(names) - 1)}
+    if topo == "sink0":
+        return {(a, names[0]) for a in names[1:]}
+    if topo == "subset":
+        bits = int(case.get("topobits", 0))
+        return {pr for i, pr in enumerate(pairs) if (bits >> (i % 12)) & 1}
+    return set(pairs)
+
+
 def build(case):
     """Fresh entities + initial events for one execution. Returns (entities, initial_events, sent_cross)."""
     from happysimulator import Entity, Event, Instant
@@ -116,8 +134,14 @@ def build(case):
     ents = []
     stats = {"cross": 0}
 
+    links = allowed_links(case, set(part)) if case.get("linked", True) else set()
+
     def mk(em, fuel, now, src):
         tgt = em["tgt"] % n
+        if part[tgt] != part[src] and (part[src], part[tgt]) not in links:
+            # no link in that direction: send to an entity of a linked partition instead, else stay local
+            cands = [j for j in range(n) if (part[src], part[j]) in links] or [j for j in range(n) if part[j] == part[src]]
+            tgt = cands[em["tgt"] % len(cands)]
         dt = em["dt"] * TICK + em.get("j", 0)
         if part[tgt] != part[src]:
             dt += L
@@ -219,10 +243,8 @@ def run_parallel(case, workers_all):
     links = []
     if case.get("linked", True):
         L = lat_ns(case) / 1e9
-        for a in names:
-            for b in names:
-                if a != b:
-                    links.append(PartitionLink(f"p{a}", f"p{b}", min_latency=L))
+        for (a, b) in sorted(allowed_links(case, set(names))):
+            links.append(PartitionLink(f"p{a}", f"p{b}", min_latency=L))
     end = end_ns_of(case)
     kw = {"end_time": Instant(end)} if end is not None else {}
     win, _ = window_s(case)
@@ -290,7 +312,8 @@ def execute_linked(case):
     cross = sstats["cross"]
     r.labels += [l for l, c in (("cross-traffic", cross > 0), ("end-set", end is not None), ("win:" + case["win"], True),
                                 ("workers:1" if case.get("workers") else "workers:all", True),
-                                ("decimal-latency", case["lat"][0] == "ms"), ("entities-as-sources", bool(case.get("srcbits")))) if c]
+                                ("decimal-latency", case["lat"][0] == "ms"), ("entities-as-sources", bool(case.get("srcbits"))),
+                                ("topo:" + str(case.get("topo", "all")), True)) if c]
     r.nontrivial = cross > 0 and sum(len(v) for v in seq.values()) >= 4
     r.target = float(min(cross, 20))
     return r
@@ -325,7 +348,8 @@ def execute_independent(case):
 
 
 RULE = ("stateless scripted entities (immediate and one-yield generator handlers; some registered as partition sources instead of "
-        "entities) spread over 2-4 partitions, all pairs linked with "
+        "entities) spread over 2-4 partitions, linked pairwise, as a one-way chain, all into one sink partition, or by a generated subset "
+        "of ordered pairs (cross-partition emits follow existing links), with "
         "min_latency L in {1,2,5 ticks of 1/512 s, 1,3,7,10 ms}; cross-partition emits carry delay L + extra (extra may be 0), local "
         "emits arbitrary; window_size in {default, L, L/2, L/3, 0.3 L}; initial events placed exactly at, 1 ns before/after and in the "
         "middle of window boundaries with idle gaps of up to 20 windows; end_time none / on / off a boundary; max_workers 1 or "
